@@ -196,6 +196,7 @@ type Eng struct {
 	unmodelled     map[string]bool
 	inlined        map[string]bool
 	usedExterns    map[string]bool
+	neutral        map[string]bool
 	world          *World
 	roles          map[*ssa.Function]string
 	extraReach     []*Obligation
